@@ -1,4 +1,5 @@
-//! Lean flavour (`--no-default-features`): blake3 is built without rayon, mmap, zeroize and serde, so that code which
+//! Lean flavour (`--no-default-features --features par`): blake3 is built without zeroize and serde (without `par`
+//! also without rayon and mmap), so that code which
 //! exists only when one of those features is OFF is compiled into a harness build at all. Parallel and mapped
 //! adapters fall back to update / update_reader on the same bytes; operations that make no sense without the missing
 //! API (zeroize, special files, the b3sum parser) are skipped (see `needs_full`).
@@ -6,14 +7,14 @@
 
 pub const FULL: bool = cfg!(feature = "full");
 
-#[cfg(not(feature = "full"))]
+#[cfg(not(feature = "par"))]
 pub trait LeanHasher {
     fn update_rayon(&mut self, _input: &[u8]) -> &mut Self;
     fn update_mmap(&mut self, _path: impl AsRef<std::path::Path>) -> std::io::Result<&mut Self>;
     fn update_mmap_rayon(&mut self, _path: impl AsRef<std::path::Path>) -> std::io::Result<&mut Self>;
 }
 
-#[cfg(not(feature = "full"))]
+#[cfg(not(feature = "par"))]
 impl LeanHasher for blake3::Hasher {
     // the lean build has no parallel or mapped adapters: the same bytes go through update / update_reader, so that
     // plans keep their meaning (a C09 shard is still fed completely)
@@ -53,12 +54,13 @@ impl LeanZeroize for blake3::Hash {
     }
 }
 
-/// does this operation need API that the lean flavour does not have?
+/// does this operation need API that this build does not have?
 pub fn needs_full(op: &crate::plan::Op) -> bool {
     use crate::plan::Op;
     match op {
-        Op::ParallelRayon { .. } | Op::Zeroize { .. } | Op::FileKinds { .. } | Op::SysFault { .. } | Op::HugeFile { .. } | Op::CliSpecial { .. } => true,
-        Op::PathRoundTrip { .. } | Op::ParseMutations { .. } | Op::ParseLine { .. } => true,
+        Op::Zeroize { .. } => !cfg!(feature = "full"),
+        Op::ParallelRayon { .. } | Op::FileKinds { .. } | Op::SysFault { .. } | Op::HugeFile { .. } | Op::CliSpecial { .. } => !cfg!(feature = "par"),
+        Op::PathRoundTrip { .. } | Op::ParseMutations { .. } | Op::ParseLine { .. } => !cfg!(feature = "par"),
         _ => false,
     }
 }
